@@ -79,3 +79,45 @@ End Turn.
 
 Definition programs_clean (tr : trace) : Prop :=
   forall e t, In (e, t) tr -> (e = Render \/ e = LitEval) -> tg t = Config.
+
+(* ---------------------------------------------------------------- multi-turn: the history in later prompts
+
+   A prompt is `render(template, env)`: the template is configuration, the history (user messages,
+   LLM-produced intents and messages of EARLIER turns) is data of the environment.  [passes] is the
+   number of rendering passes of taskmanager._render_string (read from the source by the
+   translator).  A second pass would interpret the OUTPUT of the first one - which contains the
+   history - as a program: its provenance is the join of the provenances of everything inserted. *)
+Definition is_config (t : tag) : bool := match t with Config => true | _ => false end.
+Definition joined_tag (h : list tv) : tag :=
+  if forallb (fun t => is_config (tg t)) h then Config else FromLLM.
+
+Section Conversation.
+  Variable llm : nat -> text.
+  Variable render : text -> (text -> text) -> text.
+  Variable prompt_template : nat -> text.
+  Variable data_env : list tv -> text -> text.
+  Variable passes : nat.
+
+  Definition call_p (k : nat) (history : list tv) : tv * trace :=
+    let tpl := mk (prompt_template k) Config in
+    let p1 := render (txt tpl) (data_env history) in
+    let again := match passes with
+                 | S (S _) => [(Render, mk p1 (joined_tag history))]
+                 | _ => []
+                 end in
+    (mk (llm k) FromLLM, (Render, tpl) :: again).
+
+  (* general mode, any number of turns: each turn appends the user message (Caller) and the
+     LLM-produced reply (FromLLM) to the history that the next prompt renders.
+     [k0] = index of the first LLM call, [users] = the user messages still to come *)
+  Fixpoint conversation (k0 : nat) (history : list tv) (users : list text) : res (list tv * trace) :=
+    match users with
+    | [] => Ok (history, [])
+    | u :: rest =>
+        let h1 := mk u Caller :: history in
+        let '(o, t) := call_p k0 h1 in
+        let! m := general_post (txt o) in
+        let! r := conversation (S k0) (mk m FromLLM :: h1) rest in
+        Ok (fst r, t ++ snd r)
+    end.
+End Conversation.
